@@ -1825,6 +1825,16 @@ def rewrite(t, fn):
             n = _renorm_tpl(n)
     elif k == "fmt":
         n = (k, [p if p[0] == "lit" else (p[0], p[1], rewrite(p[2], fn)) for p in t[1]])
+        if any(p[0] == "arg" and p[2][0] == "lit" and isinstance(p[2][1], str) and str(p[1]).strip(" {}:") in ("", "new_display") for p in n[1]):
+            # a string literal that came to stand in a `{}` is part of the text
+            parts = []
+            for p in n[1]:
+                q_ = ("lit", p[2][1]) if p[0] == "arg" and p[2][0] == "lit" and isinstance(p[2][1], str) and str(p[1]).strip(" {}:") in ("", "new_display") else p
+                if q_[0] == "lit" and parts and parts[-1][0] == "lit":
+                    parts[-1] = ("lit", parts[-1][1] + q_[1])
+                else:
+                    parts.append(q_)
+            n = (k, parts)
         if any(p[0] == "arg" and p[2][0] == "fmt" and str(p[1]).strip(" {}:") in ("", "new_display") for p in n[1]):
             # the text of a format! that came to stand in a `{}` of another stands in its place
             parts = []
@@ -3742,6 +3752,10 @@ class Norm:
                 if ob is not None:
                     c, v = ob
                     return ("call", "vec+", [("for", it, v if c is None else _mk_if(c, v, ("lit", "()")))])
+            if name == "Result::and_then" and len(args) == 1 and args[0][0] == "closure" and args[0][2] == 1 and args[0][3][0] == "call" \
+                    and args[0][3][1] == "Ok" and len(args[0][3][2]) == 1:
+                # r.and_then(|v| Ok(X))  ==  r.map(|v| X)    (a `?` inside X leaves the closure with the error that the caller's `?` then passes on)
+                name, args = "Result::map", [("closure", args[0][1], 1, args[0][3][2][0])]
             if name == "Result::map" and len(args) == 1 and args[0][0] == "closure" and args[0][2] == 1:
                 # r.map(|v| X)  ==  match r { Ok(v) => Ok(X), Err(e) => Err(e) }
                 d = args[0][1]
